@@ -4,6 +4,14 @@ VERIF = os.path.dirname(os.path.dirname(os.path.abspath(__file__)))
 ALL = [f"C{n:02d}" for n in range(1, 21)]
 
 CLAIMED = {
+ "C14": dict(
+   text="Theorems (Coq, closed): an LRU cache of ANY capacity is transparent for every call sequence whenever the memoised function respects the cache's key equality; the compile, gradient and degree keys (Variable/Parameter by name, interior nodes by identity) do, a bare Parameter root being kept out of the compile cache; hence the answers for a model after any prefix of other models' calls equal those from an empty cache; a counter-example shows the key-respect hypothesis is needed (the repaired defect). Tie: hit/miss/bypass sequences observed through cache_info() on adversarial call sequences (incl. overflowing the generated capacity) compared with the LRU model; whole-process comparison of observations on a model after name-sharing prefixes (1100 compilations, 4200 gradient calls) vs a fresh interpreter, exact equality.",
+   note="Trusted: Coq kernel (no axioms); model Caches.v of functools.lru_cache and of Python key equality; CPython keeps cached key objects alive so id() is not reused (outside the model).",
+   technique="Coq proof (cache invariant by induction over call sequences, key-respect lemmas) + exact hit/miss correspondence + fresh-process differential", ref="6/C14"),
+ "C20": dict(
+   text="Theorems (Coq, closed): in the Fault.v model of the solve's control structure, for every fault point and every exception class the warning hook is restored; a fault that strikes yields FAILED exactly when an Exception is raised inside the guarded solver call and otherwise propagates (KeyboardInterrupt always); a failed cache or Hessian build leaves no partial cache; the next solve is identical to one without any earlier fault; the LP wrapper touches nothing global; nested solves restore in stack order; the recursion-limit bracket restores. Tie: fault enumeration against the real code (every callable handed to SciPy at baseline call indices, solver entry/exit, cache-build compiles, Hessian build, LP extraction and linprog) x 4 exception classes: hook identity, recursion limit, cache flags, outcome class and next-solve equality compared with the model's prediction.",
+   note="Trusted: Coq kernel (no axioms); CPython's try/except/finally semantics and exception lattice are modelled, not verified; faults are injected at Python-visible seams only.",
+   technique="Coq proof (exhaustive case analysis over fault points) + fault enumeration against the implementation", ref="6/C20", category="proof"),
  "C03": dict(
    text="Theorems (Coq): entry (i,j) of the compiled Jacobian on the constant, scaled and general paths is the value of the model gradient of expression i w.r.t. variable j (which C02 proves is the partial derivative) for any duplicate-free V containing the variables; all paths return what the general path returns; every per-node Jacobian-row shortcut (incl. products of overlapping slices) equals the general path entrywise; compile_gradient likewise; the vectorised power / elementwise-function closure bodies found in the source on this run compute the value of the model's derivative rule (re-proved over the generated tables), full and sparse, and the dispatch is complete. Tie: compute_jacobian's row trees and the chosen path (callable __name__) compared exactly; every array entry checked by interval enclosure.",
    note="Trusted: Coq kernel; Reals/Coquelicot axioms; translator for the closure tables; Interval library; model Jacobian.v; identity of Variable objects modelled by name.",
